@@ -505,6 +505,25 @@ def stream_full_save(ctx, n_cases: int):
                            "handed_actions": actions0.tolist(), "stored_actions": np.asarray(back.actions).tolist()})
         elif not (_arr_eq(out.data, data0) and _arr_eq(out.actions, actions0)):
             ctx.violation("save() modified the Output it was handed", {"before": data0.tolist(), "after": np.asarray(out.data).tolist()})
+    # (A0) infinite entries (outside the rational model, so judged on the implementation alone): they round-trip like any value
+    for i in range(6 if ctx.quick else 60):
+        rows, cols = rng.randint(1, 4), rng.randint(1, 4)
+        pal = [float("inf"), float("-inf"), float("nan"), 4.0, -2.5, 1e308]
+        data = np.array([[rng.choice(pal) for _ in range(cols)] for _ in range(rows)], dtype=float)
+        actions = np.array([[rng.choice([float("nan"), float("inf"), 7.0, 12.0]) for _ in range(cols)] for _ in range(rows)], dtype=float)
+        with tempfile.TemporaryDirectory(dir=str(ctx.work)) as d:
+            path = Path(d) / "data.json"
+            save.save_json(path, "first", save.Output(np.array([[1.0]]), np.array([[3.0]]), Namespace(func=print)))
+            save.save_json(path, "inf-run", save.Output(data.copy(), actions.copy(), Namespace(func=print)))
+            backs = [save.Output.from_file(path, "inf-run"), save.get_outputs_from_file(path)["inf-run"]]
+        ctx.evaluations += 1
+        ctx.count("full_save", "infinite entries")
+        for back in backs:
+            if not (_arr_eq(back.data, data) and _arr_eq(back.actions, actions)):
+                ctx.violation("a gap/action matrix with infinite entries does not round-trip through save_json / from_file",
+                              {"saved_data": str(data.tolist()), "read_data": str(np.asarray(back.data).tolist()),
+                               "saved_actions": str(actions.tolist()), "read_actions": str(np.asarray(back.actions).tolist())})
+                break
     # (A') a sequence of saves with every saver into ONE model directory under names that differ only after their last dot
     # (version suffixes, ISO timestamps with fractional seconds, decimal hyper-parameters): all are NEW names
     names = ["ppo.v1", "ppo.v2", "2026-09-30T12:00:00.104233", "2026-09-30T12:00:00.871902", "lr=0.0003", "lr=0.001", "plain"]
